@@ -13,6 +13,7 @@ import (
 	"os"
 	"runtime/debug"
 	"strings"
+	"sync/atomic"
 )
 
 type core interface {
@@ -74,6 +75,11 @@ func extraCommand(name string, args []string) bool {
 }
 
 func runAll() {
+	defer func() {
+		if n := atomic.LoadInt64(&barrierRepeats); n > 0 {
+			fmt.Fprintf(os.Stderr, "harness: %d barrier PINGREQ(s) had to be repeated (no answer within 1.5 s)\n", n)
+		}
+	}()
 	live := map[string]core{}
 	in := bufio.NewReaderSize(os.Stdin, 1<<20)
 	out := bufio.NewWriterSize(os.Stdout, 1<<20)
